@@ -17,3 +17,12 @@ def check(run, only=None):
         out = fw.merge_worker_results(results, RULE.format(n=len(sugarmon.SHAPES), g=len(sugarmon.GREEDY),
                                                             m=params["max_len"]))
         run.add_bounded(out)
+    if only in (None, "P"):
+        from vlib.props import pcommon
+        from vlib.companions import parserfuncs as pf
+        import contracts.actions as ca
+        pcommon.add_proof(run, "C13", ca.ACTIONS_C13, [pf.run_actions],
+                          "built-in collecting actions: collect_first(_sep) return the accumulated list unchanged for a "
+                          "missing element and otherwise a NEW list = accumulated + [element] (separator dropped); "
+                          "collect_right_first(_sep) a new list [element] + tail; pass_single the only match, pass_none "
+                          "None, pass_empty a new empty list; no argument is modified")
